@@ -33,6 +33,9 @@ func runC15(c *Ctx) {
 	c03Identities(c)
 	c03Core(c)
 	c.ruleAlias = nil
+	c.rule("C15-R12", "PAIR (sibling indexes): where a struct of pkg/jit keeps the same cached objects in two containers (a per-route list and an index by name), every function that inserts into, deletes from or replaces one container does the same for the other: a specialisation trimmed from the list by eviction must not stay reachable - and valid - through an index that InvalidateCache never walks")
+	c.Sites["C15-R12#sibling-container-pairs"] = siblingIndexAudit(c, "C15-R12", []string{"pkg/jit"})
+	c.ob("C15-R12", "pkg/jit#sibling-containers-examined", token.NoPos, true, "")
 	c.rule("C15-R8", "PAIR: every Lock/RLock in pkg/jit is released on every path to a return; REACQ: no method calls, while it holds its receiver's mutex, a method of the same receiver that acquires that mutex again (sync mutexes are not re-entrant; a second RLock blocks once a writer waits)")
 	c.Sites["C15-R8#acquire-sites"] = lockReleaseAudit(c, "C15-R8", []string{"pkg/jit"})
 	c.floor("C15-R8", 10)
